@@ -6,6 +6,7 @@ import (
 	"strconv"
 	"strings"
 	"sync"
+	"sync/atomic"
 
 	"github.com/ChrisTrenkamp/xsel"
 	"github.com/ChrisTrenkamp/xsel/store"
@@ -58,6 +59,7 @@ func parseFloat(s string) float64 {
 
 // exprCache memoises BuildExpr by text.
 var exprCache sync.Map
+var exprCacheSize int64
 
 func buildExpr(text string) (*xsel.Grammar, error) {
 	if v, ok := exprCache.Load(text); ok {
@@ -68,6 +70,11 @@ func buildExpr(text string) (*xsel.Grammar, error) {
 	e := &cachedExpr{err: err}
 	if err == nil {
 		e.g = &g
+	}
+	// compiled expressions are large (the whole parse forest): keep the memo small
+	if atomic.AddInt64(&exprCacheSize, 1) > 3000 {
+		exprCache.Range(func(k, _ any) bool { exprCache.Delete(k); return true })
+		atomic.StoreInt64(&exprCacheSize, 0)
 	}
 	exprCache.Store(text, e)
 	return e.g, e.err
@@ -123,6 +130,9 @@ func prepareDoc(events []xmodel.Event) (*prepared, error) {
 // settings builds the library-side bindings and the reference environment.
 func (c *evalCase) settings(p *prepared) ([]xsel.ContextApply, *xref.Env, error) {
 	env := &xref.Env{Doc: p.doc, NS: map[string]string{}, Vars: map[xref.Name]xref.Value{}, Funcs: map[xref.Name]xref.UserFunc{}}
+	// while the finding is open the reference reproduces exactly "negative
+	// ties below -0.5 round away from zero" (pinned by the repository's suite)
+	env.RoundHalfAwayNegative = excluded("C06-round-negative-tie")
 	var set []xsel.ContextApply
 	for k, v := range c.NS {
 		env.NS[k] = v
